@@ -25,7 +25,7 @@ pub fn latex() -> F {
     F { name: "latex", e: &E_LATEX, l: &lf::FORMAT_LATEX, names: &["a", "b1", "x-y", "0"] }
 }
 pub fn han() -> F {
-    F { name: "han", e: &E_HAN, l: &lf::FORMAT_HAN, names: &["a", "b1", "x-y", "0", "甲"] }
+    F { name: "han", e: &E_HAN, l: &lf::FORMAT_HAN, names: &["a", "b1", "x-y", "0", "甲", "乙将"] }
 }
 pub fn all() -> [F; 3] {
     [ascii(), latex(), han()]
